@@ -195,6 +195,7 @@ namespace {
          Interp in;
          auto init = init_event(in);
          std::cout << vj::dump(init) << "\n";
+         if (not in.w.consts_canonical()) continue;      // the init line says which constants coincide; nothing else can be numbered
          // repeat earlier requests with some probability so that hits are as frequent as misses
          std::vector<Value> past;
          for (int k = 0; k < len; ++k) {
